@@ -327,7 +327,7 @@ def format_time_unit(ctx, src):
                       Rule('ret.data()', 'c18_fstr_data(ret)', count='+'),
                       Rule('ret.size()', 'c18_fstr_size(ret)', count='+'),
                       Rule(r'\bret\.resize\(', 'c18_fstr_resize(ret, ', regex=True, count=1),
-                      Rule('min<size_t>(', 'C18_MIN_SIZE(', count=1),
+                      Rule('min<size_t>(', 'C18_MIN_SIZE(', count=None),   # (std::min<T> is lowered generically to VERIF_MIN_T by vf.lex before this rule)
                       Rule(r'\bgmtime_r\(', 'c18_gmtime_r(', regex=True, count=1),
                       Rule(r'\bstrftime\(', 'c18_strftime(', regex=True, count=1),
                       # snprintf(dst, n, ".%[0][w]" PRIu32, v): flag and width of the conversion become arguments of the stub
